@@ -4,11 +4,13 @@ go 1.26.8
 
 require (
 	github.com/anishathalye/porcupine v1.3.0
+	github.com/kubewharf/apiserver-runtime v0.0.0
 	github.com/kubewharf/kubegateway v0.0.0
 	k8s.io/api v0.18.10
 	k8s.io/apimachinery v0.18.19
 	k8s.io/apiserver v0.18.10
 	k8s.io/client-go v0.18.10
+	k8s.io/component-base v0.18.10
 	kgsimhook v0.0.0
 )
 
@@ -58,7 +60,6 @@ require (
 	github.com/hashicorp/golang-lru v0.5.1 // indirect
 	github.com/imdario/mergo v0.3.6 // indirect
 	github.com/json-iterator/go v1.1.8 // indirect
-	github.com/kubewharf/apiserver-runtime v0.0.0 // indirect
 	github.com/libp2p/go-reuseport v0.4.0 // indirect
 	github.com/mailru/easyjson v0.7.0 // indirect
 	github.com/matttproud/golang_protobuf_extensions v1.0.1 // indirect
@@ -103,7 +104,6 @@ require (
 	k8s.io/apiextensions-apiserver v0.18.10 // indirect
 	k8s.io/cloud-provider v0.18.10 // indirect
 	k8s.io/cluster-bootstrap v0.18.10 // indirect
-	k8s.io/component-base v0.18.10 // indirect
 	k8s.io/klog v1.0.0 // indirect
 	k8s.io/kube-aggregator v0.18.10 // indirect
 	k8s.io/kube-openapi v0.0.0-20200410145947-61e04a5be9a6 // indirect
